@@ -212,6 +212,35 @@ fn run(cfg: &RunCfg) -> Report {
             }
         }
     }
+    // observe - N other queries - observe: the same selector asked again after N other (in-range and
+    // out-of-range) selector queries, for every N in 1..=300
+    if !small {
+        let mut nh = 0u64;
+        for n in 1..=300usize {
+            idx += 1;
+            if idx % ns != sh {
+                continue;
+            }
+            let nv = 2 + rng.below(15) as usize;
+            let c = gen_cfg(&mut rng, nv, None);
+            let sel = rng.below(nv as u64) as u8;
+            let requester = rng.byte() & 0x7F;
+            let own = c.addr & 0x7F;
+            let mut ops: Vec<(usize, Op)> = Vec::new();
+            let q = |s: u8| Op::Process(ctrl_request(own, requester, 0, false, 0x06, &[s]));
+            ops.push((0, q(sel)));
+            for _ in 0..n {
+                let s = if rng.chance(1, 3) { rng.range(nv as u64, 255) as u8 } else { rng.below(nv as u64) as u8 };
+                ops.push((0, q(s)));
+            }
+            ops.push((0, q(sel)));
+            let letters = vec![Letter::Query; ops.len()];
+            let h = History { cfgs: vec![c], ops };
+            run_history(&h, Some(&letters), &OWNED, 0xC14, &mut rep, None);
+            nh += 1;
+        }
+        rep.class_n("observe-N-queries-observe-histories", nh);
+    }
     let n = if small { 3 } else { cfg.n(cfg.pick(120_000, 3_000_000)) / ns };
     for _ in 0..n {
         let nv = 1 + rng.below(16) as usize;
